@@ -157,7 +157,8 @@ func genC04(e *emitter, r *rng, thorough bool) {
 			raw := base58.Decode(m.String())
 			raw[4] = 253
 			copy(raw[78:], crypto.Sha256d(raw[:78])[:4])
-			e.emit("depth255", xkLine("str:"+hx([]byte(base58.Encode(raw))), []string{"c0:1", "c1:2", "c2:3", "n2", "c4:0"}))
+			e.emit("depth255", xkLine("str:"+hx([]byte(base58.Encode(raw))), []string{"c0:1", "c1:2", "c2:3", "n2", "c4:0",
+				"p0:" + hx([]byte("1/2/3")), "p4:" + hx([]byte("0")), "d4:" + hx([]byte("0/1")), "p2:" + hx([]byte("5'")), "d1:" + hx([]byte("1/1"))}))
 		}
 	}
 }
@@ -389,6 +390,17 @@ func genC18(e *emitter, r *rng, thorough bool) {
 			}
 		}
 		rec(nil, 1)
+	}
+	// derived private keys stored with fewer than 32 bytes (leading zero byte): hardened children after normal ones
+	// (a recycled scratch buffer keeps the previous derivation's bytes in the padding), neuter / zero around them
+	for z := 1; z <= 2; z++ {
+		if sd, idx, ok := findShortKey(r, z); ok {
+			root := "seed:" + hx(sd) + ":0"
+			short := fmt.Sprintf("c0:%d", idx)
+			e.emit("shortkey", xkLine(root, []string{short, "c0:1", "c1:2147483648", "c1:7", "c1:2147483649", "n1", "c1:2147483648"}))
+			e.emit("shortkey", xkLine(root, []string{short, "n0", "c2:3", "c1:2147483651", "p1:" + hx([]byte("0'/1")), "z2", "c1:2147483651"}))
+			e.emit("shortkey.quiet", "xkq"+xkLine(root, []string{short, "c0:5", "c1:2147483648", "c1:2147483648"})[2:])
+		}
 	}
 	// DerivePublicKeyFromPath inside histories (a read: nothing may change), every path shape incl. the empty one
 	for _, root := range []string{privRoot, pubRoot} {
